@@ -32,13 +32,19 @@ AW, CRC, RATE = 5, 2, 1000  # link defaults used throughout (C01 varies them)
 
 
 # ---------------------------------------------------------------- configuration
-def mk_fc(arc, ard, fr, mode, so, listen, tx_cls="full", rx_cls="full", cost=30):
-    return dict(arc=arc, ard=ard, fr=fr, mode=mode, so=so if so == "alt" else bool(so), listen=bool(listen), tx_cls=tx_cls, rx_cls=rx_cls, cost=cost)
+def mk_fc(arc, ard, fr, mode, so, listen, tx_cls="full", rx_cls="full", cost=30, dynack_off=False):
+    fc = dict(arc=arc, ard=ard, fr=fr, mode=mode, so=so if so == "alt" else bool(so), listen=bool(listen), tx_cls=tx_cls, rx_cls=rx_cls, cost=cost)
+    if dynack_off:
+        # plain auto-ack mode reached another way: allow_ask_no_ack = False, every call passes ask_no_ack=True
+        # (documented: the parameter then has no effect) - everything is expected exactly as in plain mode
+        fc["dynack_off"] = True
+    return fc
 
 
 def fc_id(fc):
-    return "%s>%s a%d d%d f%d %s%s%s c%d" % (fc["tx_cls"][0], fc["rx_cls"][0], fc["arc"], fc["ard"], fc["fr"], fc["mode"],
-                                            {False: "", True: "+so", "alt": "+soalt"}[fc["so"]], "" if fc["listen"] else " deaf", fc["cost"])
+    return "%s>%s a%d d%d f%d %s%s%s c%d%s" % (fc["tx_cls"][0], fc["rx_cls"][0], fc["arc"], fc["ard"], fc["fr"], fc["mode"],
+                                              {False: "", True: "+so", "alt": "+soalt"}[fc["so"]], "" if fc["listen"] else " deaf", fc["cost"],
+                                              " ask_no_ack-disallowed" if fc.get("dynack_off") else "")
 
 
 def link_cfg(fc, seed):
@@ -53,6 +59,8 @@ def link_cfg(fc, seed):
 def build(fc, seed):
     pack = link.build_pair(link_cfg(fc, seed), spilog=False)
     w, a, ra, b, rb = pack
+    if fc.get("dynack_off"):
+        a.allow_ask_no_ack = False
     if not fc["listen"]:
         b.listen = False
         w.advance(300 * US)
@@ -191,9 +199,9 @@ def execute(pack, fc, hist, seed, pid=PID, ch=None, fixed=None, enc="direct"):
         ret, exc = None, None
         try:
             if kind == "S":
-                ret = a.send(pls[0], ask_no_ack=(mode == "noack"), force_retry=fr, send_only=so)
+                ret = a.send(pls[0], ask_no_ack=(mode == "noack" or bool(fc.get("dynack_off"))), force_retry=fr, send_only=so)
             elif kind == "L":
-                ret = a.send(list(pls), ask_no_ack=(mode == "noack"), force_retry=fr, send_only=so)
+                ret = a.send(list(pls), ask_no_ack=(mode == "noack" or bool(fc.get("dynack_off"))), force_retry=fr, send_only=so)
             else:
                 ret = a.resend(send_only=so)
         except Abort:
@@ -520,6 +528,13 @@ def plan(tier, tx_cls="full", rx_cls="full"):
         for ard in (250,):
             items.append((mk_fc(arc, ard, fr, "ackpl", "alt", True, tx_cls, rx_cls),
                           ["SS", "SL", "LS", "SR", "RS", "LR"] if quick else [h for h in H3 if len(h) > 1]))
+    # ask_no_ack=True passed while allow_ask_no_ack is off (full driver only): plain auto-ack behaviour
+    if tx_cls == "full":
+        for arc, fr in ((0, 0), (1, 0), (1, 1), (3, 0)) if quick else ((0, 0), (1, 0), (1, 1), (3, 0), (3, 1), (15, 0)):
+            for listen in (True, False):
+                hs = rule(arc, 250, fr, "plain", False, listen)
+                if hs:
+                    items.append((mk_fc(arc, 250, fr, "plain", False, listen, tx_cls, rx_cls, dynack_off=True), list(hs)))
     # SPI cost (polling period) classes
     for cost in (12, 100):
         for arc, fr in ((1, 1),) if quick else ((0, 1), (1, 1), (1, 0), (3, 1)):
@@ -577,7 +592,65 @@ def _pick_minimal(rep):
             rep.violations[sig]["replay"] = rd
 
 
+def w_resend_fifo(item, rep):
+    """resend() with 1..3 payloads in the TX FIFO (write(write_only=True) bursts behind a failed head payload): it
+    retransmits exactly the payload that failed - also when the FIFO is full - and reports its fate"""
+    seed, pid, tx_cls, rx_cls = item
+    for arc in (0, 1, 3):
+        for depth in (1, 2, 3):
+            for heard in (True, False):
+                fc = mk_fc(arc, 250, 0, "plain", False, True, tx_cls, rx_cls)
+                w, a, ra, b, rb = build(fc, seed)
+                w.activate()
+                pls = [payload(seed, k) for k in range(depth)]
+                b.listen = False  # the head payload fails: nobody answers
+                w.advance(300 * US)
+                acc = [a.write(p, write_only=True) for p in pls]
+                a.ce_pin = True
+                for _ in range(4000):
+                    a.update()
+                    if a.irq_df or a.irq_ds:
+                        break
+                failed_first = bool(a.irq_df)
+                if heard:
+                    b.listen = True
+                    w.advance(300 * US)
+                mark = len(w.airlog)
+                w.horizon = w.now + 200 * MS
+                exc = None
+                try:
+                    ret = a.resend()
+                except Abort:
+                    ret, exc = None, "Abort"
+                except HarnessError:
+                    raise
+                except Exception as e:  # noqa
+                    ret, exc = None, type(e).__name__
+                w.advance(2 * MS)
+                air = [p for p in w.airlog[mark:] if p.src is ra and not p.is_ack]
+                rep.case()
+                rep.transitions += 2
+                rep.traces += 1
+                rep.part("resend-fifo", executions=1)
+                rep.outcome("resend-fifo:%d-deep:%s:%s" % (depth, "heard" if heard else "deaf", show(ret) if not exc else exc))
+                rep.nt("resend-fifo:%d:%d:%s" % (arc, depth, heard))
+                rd = {"part": "resend-fifo", "seed": seed, "tx_cls": tx_cls, "rx_cls": rx_cls}
+                if not all(acc) or not failed_first:
+                    raise HarnessError("set-up failed: write() results %r, head payload failed=%s" % (acc, failed_first))
+                what = "arc=%d, %d payload(s) in the TX FIFO behind a failed head, peer %s: resend() %s; on the air afterwards: %s" % (
+                    arc, depth, "listening again" if heard else "still deaf", ("raised " + exc) if exc else "returned " + show(ret),
+                    [p.payload.hex()[:8] for p in air[:3]] or "nothing")
+                if exc:
+                    rep.violation("%s/resend-fifo:%s:%d-deep" % (pid, "nonterm" if exc == "Abort" else "raises-" + exc, depth), what, rd)
+                elif not air or air[0].payload != pls[0]:
+                    rep.violation("%s/resend-fifo:%s:%d-deep" % (pid, "nothing-retransmitted" if not air else "wrong-payload", depth), what, rd)
+                elif bool(ret) != heard:
+                    rep.violation("%s/resend-fifo:ret-%s:%d-deep" % (pid, "False-though-acked" if heard else "True-though-failed", depth), what, rd)
+
+
 def run_faults(tier, seed, rep, tx_cls="full", rx_cls="full", pid=PID, only=None):
+    if not only or "resendfifo" in only:
+        pmap(w_resend_fifo, [(seed, pid, tx_cls, rx_cls)], rep)
     items, strat, bounds = plan(tier, tx_cls, rx_cls)
     work = []
     for fc, hs in items:
@@ -621,6 +694,16 @@ def run(tier, seed, rep, only=None):
 
 
 def replay(data):
+    if data["replay"].get("part") == "resend-fifo":
+        from ..engine import Report
+        r, rp = data["replay"], Report()
+        w_resend_fifo((r["seed"], data.get("property", PID), r["tx_cls"], r["rx_cls"]), rp)
+        want = data.get("signature")
+        return [(s_, v_["what"]) for s_, v_ in rp.violations.items() if want is None or s_ == want]
+    return _replay(data)
+
+
+def _replay(data):
     r = data["replay"]
     fc, hist, seed = r["fc"], r["hist"], r["seed"]
     pack = build(fc, seed)
